@@ -442,6 +442,19 @@ def stopping_rule(ctx, rid):
                 else:
                     conds.append(p.test)
             p = getattr(p, "_parent", None)
+        # a test that is a flag variable: read through a single definition, otherwise not a shape to classify
+        conds2 = []
+        for c_ in conds:
+            inner_ = c_.operand if isinstance(c_, ast.UnaryOp) and isinstance(c_.op, ast.Not) else c_
+            if isinstance(inner_, ast.Name) and inner_.id not in f.params:
+                d_ = single_def(f, inner_.id, g)
+                if d_ is None or d_[1] is None or inner_ is not c_:
+                    raise AnalysisError("idiom changed: an exit of the sampling loop is decided through the flag variable `%s`" % inner_.id)
+                v_ = d_[1]
+                conds2.extend(v_.values if isinstance(v_, ast.BoolOp) and isinstance(v_.op, ast.And) else [v_])
+            else:
+                conds2.append(c_)
+        conds = conds2
         kinds[b.id] = conds
     conv = [b for b, cs in kinds.items() if any("converged" in norm(c) for c in cs)]
     lim = [b for b, cs in kinds.items() if any("max_samples" in norm(c) for c in cs) and b not in conv]
